@@ -7,36 +7,35 @@ From HP Require Import Base.Bytes Base.Utf8 Base.Num Model.Scanner Model.Parser 
 From HP Require Import Spec.PeriodSpec Spec.PeriodBytesSpec.
 From HP Require Import Proofs.ParserBytes Proofs.ParserScan Proofs.ParserCorollaries Proofs.PeriodPick
   Proofs.PeriodBytesParse Proofs.PeriodBytesRun.
+From HP Require Proofs.Settings.
+Notation config_path := Settings.config_path.
 
 Section Cli.
   Context (NM : Num).
 
-  (** replacing a regular file by a regular file does not change what [load] reads: the
-      configuration is found (or not) at the same path with the same entries; a path that holds
-      a regular file is never a valid configuration in the model *)
-  Lemma load_config_with_file : forall w i p d data',
-    lookup_fs w p = Some (FFile d) ->
+  (** replacing a regular file other than the configuration file does not change what [load]
+      reads: the configuration is found (or not) at the same path with the same contents.
+      (WP28: a regular file at the configuration path is now read as text, so the file replaced
+      must not be the configuration file itself.) *)
+  Lemma load_config_with_file : forall w i p data',
+    config_path w i <> p ->
     load_config (with_file w p data') (without_period_flags i) = load_config w i.
   Proof.
-    intros w i p d data' Hp. unfold load_config.
+    intros w i p data' Hne. unfold load_config.
     change (i_f_config (without_period_flags i)) with (i_f_config i).
     change (i_e_config (without_period_flags i)) with (i_e_config i).
     change (w_default_config (with_file w p data')) with (w_default_config w).
-    set (path := or_default (first_some [i_f_config i; i_e_config i]) (w_default_config w)).
-    destruct (beq path p) eqn:E.
-    - apply ParserBytes.beq_true_iff in E. rewrite E.
-      rewrite lookup_fs_with_file_same, Hp. reflexivity.
-    - rewrite lookup_fs_with_file_other; [reflexivity|].
-      intros C. rewrite C in E. rewrite PeriodBytesRun.beq_refl in E. discriminate E.
+    change (or_default (first_some [i_f_config i; i_e_config i]) (w_default_config w)) with (config_path w i).
+    rewrite lookup_fs_with_file_other; [reflexivity|exact Hne].
   Qed.
 
-  Theorem load_without_period : forall w i op p d data',
+  Theorem load_without_period : forall w i op p data',
     load w i = inr op ->
-    lookup_fs w p = Some (FFile d) ->
+    config_path w i <> p ->
     load (with_file w p data') (without_period_flags i) = inr (without_period op).
   Proof.
-    intros w i op p d data' Hl Hp. unfold load in *.
-    rewrite (load_config_with_file w i p d data' Hp).
+    intros w i op p data' Hl Hp. unfold load in *.
+    rewrite (load_config_with_file w i p data' Hp).
     destruct (load_config w i) as [e|cfg]; [discriminate Hl|].
     unfold without_period_flags.
     cbn [i_f_db i_e_db i_f_log i_e_log i_f_fmt i_e_fmt i_f_depth i_e_depth i_f_today i_f_config i_e_config
@@ -67,16 +66,17 @@ Section Cli.
     headings_dated (rc_date (op_rc op)) f ->
     file_is w (op_log op) (render f) ->
     op_db op <> op_log op ->
+    config_path w i <> op_log op ->
     run NM w i
     = run NM (with_file w (op_log op)
                 (render (keep_records (in_period (rc_date (op_rc op)) (op_begin op) (op_end op)) f)))
           (without_period_flags i).
   Proof.
-    intros w i op f Hl Hc Hwf Hs Hcl Hd Hf Hne.
+    intros w i op f Hl Hc Hwf Hs Hcl Hd Hf Hne Hcp.
     pose proof (load_period w i op Hl) as [Ht _].
     destruct Hf as [Hp0 [Hp Hfault]].
     unfold run.
-    rewrite (load_without_period w i op (op_log op) (render f) _ Hl Hp). rewrite Hl.
+    rewrite (load_without_period w i op (op_log op) _ Hl Hcp). rewrite Hl.
     change (op_rc (without_period op)) with (op_rc op).
     change (i_cmd (without_period_flags i)) with (i_cmd i).
     change (i_desc (without_period_flags i)) with (i_desc i).
@@ -101,16 +101,17 @@ Section Cli.
     wf_file NM f = true -> short_lines f -> clean_file f ->
     file_is w (op_log op) (render f) ->
     op_db op <> op_log op ->
+    config_path w i <> op_log op ->
     run NM w i
     = run NM (with_file w (op_log op)
                 (render (keep_records (in_period_or_undated (rc_date (op_rc op)) (op_begin op) (op_end op)) f)))
           (without_period_flags i).
   Proof.
-    intros w i op f Hl Hc Hwf Hs Hcl Hf Hne.
+    intros w i op f Hl Hc Hwf Hs Hcl Hf Hne Hcp.
     pose proof (load_period w i op Hl) as [Ht _].
     destruct Hf as [Hp0 [Hp Hfault]].
     unfold run.
-    rewrite (load_without_period w i op (op_log op) (render f) _ Hl Hp). rewrite Hl.
+    rewrite (load_without_period w i op (op_log op) _ Hl Hcp). rewrite Hl.
     change (op_rc (without_period op)) with (op_rc op).
     change (i_cmd (without_period_flags i)) with (i_cmd i).
     change (i_desc (without_period_flags i)) with (i_desc i).
@@ -130,20 +131,16 @@ Section Cli.
   (** *** [summary DAY]: it builds its own period from its argument and ignores the flags, so the
       statement keeps the invocation: the output equals what the same command prints for the file
       with the other days deleted *)
-  Lemma load_with_file : forall w i p d data',
-    lookup_fs w p = Some (FFile d) ->
+  Lemma load_with_file : forall w i p data',
+    config_path w i <> p ->
     load (with_file w p data') i = load w i.
   Proof.
-    intros w i p d data' Hp. unfold load.
+    intros w i p data' Hp. unfold load.
     assert (Hc : load_config (with_file w p data') i = load_config w i).
     { unfold load_config.
       change (w_default_config (with_file w p data')) with (w_default_config w).
-      set (path := or_default (first_some [i_f_config i; i_e_config i]) (w_default_config w)).
-      destruct (beq path p) eqn:E.
-      - apply ParserBytes.beq_true_iff in E. rewrite E.
-        rewrite lookup_fs_with_file_same, Hp. reflexivity.
-      - rewrite lookup_fs_with_file_other; [reflexivity|].
-        intros C. rewrite C in E. rewrite PeriodBytesRun.beq_refl in E. discriminate E. }
+      change (or_default (first_some [i_f_config i; i_e_config i]) (w_default_config w)) with (config_path w i).
+      rewrite lookup_fs_with_file_other; [reflexivity|exact Hp]. }
     rewrite Hc. reflexivity.
   Qed.
 
@@ -155,16 +152,17 @@ Section Cli.
     headings_dated (rc_date (op_rc op)) f ->
     file_is w (op_log op) (render f) ->
     op_db op <> op_log op ->
+    config_path w i <> op_log op ->
     run NM w i
     = run NM (with_file w (op_log op)
                 (render (keep_records (in_period (rc_date (op_rc op))
                                          (Some (summary_begin t)) (Some (summary_end t))) f)))
           i.
   Proof.
-    intros w i op f arg t Hl Hc Ht' Hwf Hs Hcl Hd Hf Hne.
+    intros w i op f arg t Hl Hc Ht' Hwf Hs Hcl Hd Hf Hne Hcp.
     pose proof (load_period w i op Hl) as [Ht _].
     pose proof Hf as [Hp0 [Hp Hfault]].
-    unfold run. rewrite (load_with_file w i (op_log op) (render f) _ Hp). rewrite Hl, Hc.
+    unfold run. rewrite (load_with_file w i (op_log op) _ Hcp). rewrite Hl, Hc.
     change (time_from_string (with_file w (op_log op) _) (op_now op) (rc_date (op_rc op)) arg)
       with (time_from_string w (op_now op) (rc_date (op_rc op)) arg).
     rewrite Ht'.
